@@ -1038,9 +1038,7 @@ Definition visit_external_gate (name : string) (args : list expr) (qubits : list
          match lookup_op bitref name with Some (_, n) => ret n | None => verr end
      end);;
   params <- get_op_parameters args;;
-  modify (push_ctx CGate);;;
-  targets <- unroll_targets qubits count;;
-  modify pop_ctx;;;
+  targets <- unroll_targets qubits count;;          (* resolved where the call stands *)
   emit (map (fun tg => SGate (if inverse then [MInv] else []) name (map ELit params) (map qarg_of tg)) targets).
 
 (* visitor._collapse_gate_modifiers *)
